@@ -145,7 +145,32 @@ def gen_case(rng, tier):
     return ";".join(ops), dict(dist=dist, defined=defined, threaded=threaded)
 
 
+SIG_TMAP = "tmap-extreme-argument-int64-overflow"
+
+
+def _tmap_ub(script):
+    """re-run one script alone on the sanitizer build with the child's stderr visible: is the report a signed overflow / out-of-range
+    float-to-int conversion inside tmap.c (recorded known finding)?"""
+    import subprocess, os, tempfile
+    env = dict(os.environ, JLSRUN_STDERR="1", UBSAN_OPTIONS="print_stacktrace=1:halt_on_error=1",
+               ASAN_OPTIONS="detect_leaks=1:abort_on_error=0:exitcode=99:allocator_may_return_null=1")
+    d = tempfile.mkdtemp(prefix="jlsverif.c10.")
+    try:
+        r = subprocess.run([os.path.join(vlib.BUILD, "asan", "jlsrun"), "prog", d, "exact", "timeout=30"], input=script + "\n", capture_output=True, text=True, timeout=120, env=env, errors="replace")
+        err = r.stderr
+    except Exception:
+        err = ""
+    finally:
+        import shutil
+        shutil.rmtree(d, ignore_errors=True)
+    lines = [l for l in err.splitlines() if "runtime error" in l]
+    return bool(lines) and all("tmap.c" in l and ("signed integer overflow" in l or "outside the range of representable" in l) for l in lines)
+
+
 def classify(script, meta, mism):
+    if any("FAULT EXIT1" in (str(x.get("why", "")) + str(x.get("impl", ""))) for x in mism) and any(o.split()[0] in ("s2t", "t2s") for o in script.split(";") if o.split()):
+        if _tmap_ub(script):
+            return SIG_TMAP
     if meta.get("huge_gap") and any("TIMEOUT" in (str(x.get("why", "")) + str(x.get("impl", ""))) for x in mism):
         return SIG_HUGE_GAP
     return None
